@@ -127,6 +127,7 @@ class Ctx:
         self.funcs = set()
         self.mono_pairs = []
         self.keep = []  # keep z3 terms alive (ids are recycled after GC)
+        self.decisions = []  # (term, value) in program order, symbolic and concolic runs alike
         self.shadow = None  # concolic translator validation: variable name -> float
         self.euf = False  # also build the EUF shadow term of every value
         self.simplify_stores = True  # masked scalar stores are simplified against the path condition
@@ -204,6 +205,7 @@ class Ctx:
             v = bool(numeval(b, self.shadow))
             self.pc.append(b if v else z3.Not(b))
             self.cache[k] = (b, v)
+            self.decisions.append((b, v))
             return v
         if self.pos < len(self.trail):
             d = self.trail[self.pos]
@@ -228,6 +230,7 @@ class Ctx:
         self.pos += 1
         self.pc.append(b if v else z3.Not(b))
         self.cache[k] = (b, v)
+        self.decisions.append((b, v))
         return v
 
     # -- definedness --------------------------------------------------------------
